@@ -98,7 +98,8 @@ def dataOf (id : Nat) (prov : List (Str × Layer)) (kw : List (Str × Val)) : Li
       | .kwarg k => Except.ok (kwGet k kw)
       | .const v => .ok v
       | .inject key dflt => injectSpec prov key dflt
-      | .selfId => .ok (.idBox id)) with
+      | .selfId => .ok (.idBox id)
+      | .side => .ok (.str [])) with
     | .ok v => dataOf id prov kw rest (setL out v acc)
     | .error e => .error e
 
